@@ -44,7 +44,8 @@ TRUSTED_BASE = [
 ]
 ASSUMPTIONS = ["histories stay within documented use (add_entity only for unlinked entities, safe block deletion, no removal of layers or required table entries in use)",
                "block references only in layouts (an INSERT inside its own block is a cyclic definition)"]
-OPEN = ["owner tag of sub-entities, reactors, extension dictionaries, dictionary entries, LAYOUT<->BLOCK_RECORD links, SEQEND presence: validated by dxfparse on real files, not proved on the model",
+OPEN = ["dictionary entries other than GROUP members are not in the model (validated by dxfparse on real files)",
+        "owner tag of sub-entities, reactors, extension dictionaries, dictionary entries, LAYOUT<->BLOCK_RECORD links, SEQEND presence: validated by dxfparse on real files, not proved on the model",
         "required table entries: proved present after save+reload (required_entries_after_reload) and kept by every history that does not remove one of them (required_entries_kept); root dictionary entries are oracle only",
         "version gate of individual TAGS inside an entity (dxfns._export_group_codes) is C01's schema model, here oracle only",
         "the order of the CLASS entries of the types in use follows the iteration order of a Python set (not deterministic across runs; compared as sets)"]
